@@ -41,7 +41,7 @@ def canStartJobMid (s : Sys) (jc : JCV) (j : JobV) (activeCount : Int) (k : Nat)
       ({ s with cfgQ := s.cfgQ.addAfter ("ns/" ++ jc.name) t s.clock }, .skip, k)
     else if j.policy = 1 && decide (activeCount + 1 > jc.maxConc) then
       let (s0, k') := midHook s k
-      let (s1, ok) := rejectJobWrite s0 j
+      let (s1, ok) := rejectJobWrite s0 j (jc.name, activeCount)
       (s1, if ok then .skip else .error, k')
     else if j.policy = 2 && decide (activeCount + 1 > jc.maxConc) then (s, .skip, k)
     else (s, .start, k)
